@@ -304,14 +304,27 @@ def stage_schema(ctx, pq, w):
                 if problems:
                     ctx.fail({"component": "schema", "kind": kind, "row_opt": ro, "elem_opt": eo}, {**case, "leaf": leaf["which"], "impl": r},
                              "; ".join(problems))
-    # shapes that are NOT the standard one-level LIST / MAP must not be sent through the one-level assembly
-    neg = [("list", [[2, "repetition_type", 1]], "middle group not repeated"),
-           ("list", [[3, "repetition_type", 2]], "repeated leaf below repeated group (two levels)"),
-           ("list", [[1, "converted_type", None]], "no LIST annotation"),
-           ("map", [[3, "repetition_type", 1]], "optional key"),
-           ("map", [[2, "repetition_type", 1]], "key_value group not repeated"),
-           ("map", [[1, "converted_type", None]], "no MAP annotation")]
-    for kind, mut, what in neg:
+    # shapes that are NOT the standard one-level LIST / MAP must not be sent through the one-level assembly:
+    # the whole lattice of repetition types on the LIST (3 levels) and MAP (top, key_value, key, value) shapes,
+    # plus a missing annotation.  LogicalTypes.md: outer group optional|required, middle group repeated, element /
+    # value optional|required, key required.  A REPEATED outer group is not a legal LIST/MAP; fastparquet accepts it
+    # (max_rep = 2 through a one-level assembly) - outside the property's quantifier, counted, not judged.
+    import itertools
+    neg = [("list", [[1, "converted_type", None]], "no LIST annotation", True),
+           ("map", [[1, "converted_type", None]], "no MAP annotation", True)]
+    names = {0: "required", 1: "optional", 2: "repeated"}
+    for top, mid, leaf in itertools.product([0, 1, 2], repeat=3):
+        std = top != 2 and mid == 2 and leaf != 2
+        if not std:
+            neg.append(("list", [[1, "repetition_type", top], [2, "repetition_type", mid], [3, "repetition_type", leaf]],
+                        "%s LIST { %s group { %s element } }" % (names[top], names[mid], names[leaf]), not (mid == 2 and leaf != 2)))
+    for top, mid, k, v in itertools.product([0, 1, 2], repeat=4):
+        std = top != 2 and mid == 2 and k == 0 and v != 2
+        if not std:
+            neg.append(("map", [[1, "repetition_type", top], [2, "repetition_type", mid], [3, "repetition_type", k], [4, "repetition_type", v]],
+                        "%s MAP { %s group { %s key, %s value } }" % (names[top], names[mid], names[k], names[v]),
+                        not (mid == 2 and k == 0 and v != 2)))
+    for kind, mut, what, must_reject in neg:
         col = dict(name="c", kind=kind, row_opt=True, elem_opt=True, ptype="int64", key_ptype="utf8")
         leaves = NF.leaf_columns(col)
         res = w.call({"op": "schema", "cols": [col], "paths": [l["path"] for l in leaves], "mutate": mut})
@@ -321,9 +334,12 @@ def stage_schema(ctx, pq, w):
             ctx.fail({"component": "schema", "kind": kind, "negative": True}, case, "schema functions raised: %r" % (res,))
             continue
         for r in res["ok"]:
-            if (kind == "list" and r["is_list_like"]) or (kind == "map" and r["is_map_like"]):
+            accepted = (kind == "list" and r["is_list_like"]) or (kind == "map" and r["is_map_like"])
+            if accepted and must_reject:
                 ctx.fail({"component": "schema", "kind": kind, "negative": True}, {**case, "impl": r},
                          "a non-standard shape (%s) is accepted as one-level %s" % (what, kind.upper()))
+            elif accepted:
+                ctx.count("schema.accepted_nonstandard", what)
 
 
 # ---- A: direct calls -----------------------------------------------------------------------
